@@ -294,3 +294,199 @@ def gen_hostile(rng, knobs=None):
     prog.append(['probe', src, spec(rng), spec(rng)])
     prog.append(['finish'])
     return opts, prog
+
+
+def gen_lease(rng, knobs=None):
+    """the client honours leases; the real server announces the leases a scripted publisher issues; requests of all four
+    types are made at arbitrary virtual times relative to LEASE frames (counts 0..5, ttl 0..3000 ms incl. sub-second parts)"""
+    k = dict(knobs or {})
+    opts = {'mode': k.get('mode') or rng.choice(['tcp', 'msg']), 'frag': rng.choice([None, None, 64]), 'honor_lease_c': True,
+            'lease_queue': rng.choice([0, 0, 0, 3]), 'read_buffer': rng.choice([7, 1024])}
+    prog = [['start'], ['pump']]
+    for _ in range(rng.randint(4, 16)):
+        r = rng.random()
+        if r < 0.3:
+            prog.append(['lease', rng.choice([0, 1, 1, 2, 3, 5]), rng.choice([0, 50, 500, 1000, 1500, 2500, 3000])])
+            prog.append(['pump'] if rng.random() < 0.8 else ['settle'])
+        elif r < 0.75:
+            kind = rng.choice(['rr', 'rr', 'fnf', 'stream', 'channel'])
+            sp = spec(rng, big=rng.random() < 0.3)
+            if kind == 'rr':
+                prog.append(['rr', 'c', sp, {'mode': 'immediate', 'resp': spec(rng, big=False)}])
+            elif kind == 'fnf':
+                prog.append(['fnf', 'c', sp])
+            elif kind == 'stream':
+                prog.append(['stream', 'c', sp, rng.choice([1, 3, None]), {'src': 'generator', 'items': items(rng, 2, big=False)}, True])
+            else:
+                prog.append(['channel', 'c', sp, 3, {'src': 'generator', 'items': items(rng, 1, big=False), 'pub': True, 'sub': True}, False, None, True])
+            if rng.random() < 0.6:
+                prog.append(['pump'])
+        elif r < 0.9:
+            prog.append(['advance', rng.choice([10, 100, 400, 600, 1100, 2000])])
+            prog.append(['pump'])
+        elif k.get('lease_cancel'):
+            prog.append([rng.choice(['fut_cancel', 'cancel', 'request_n'])] + ([rng.randrange(8)] if True else []))
+            if prog[-1][0] == 'cancel':
+                prog[-1] += ['req']
+            elif prog[-1][0] == 'request_n':
+                prog[-1] += ['req', 2]
+        else:
+            prog.append(['pump'])
+    prog.append(['finish'])
+    return opts, prog
+
+
+def gen_keepalive(rng, knobs=None):
+    """a real client against a scripted server that acknowledges keep-alives always / never / until some time / with a delay,
+    and sends respond-flagged keep-alives of its own; periods and lifetimes vary (incl. lifetime < period)"""
+    k = dict(knobs or {})
+    period = rng.choice([50, 100, 200, 500, 1000, 60000])
+    life = rng.choice([period // 2 if period >= 100 else 60, period, 2 * period, 3 * period + 7, 600000])
+    mode = rng.choice(['always', 'always', 'never', 'stop_at', 'stop_at', 'only_after'])
+    horizon = rng.choice([3, 5, 8]) * max(period, min(life, 3000))
+    horizon = min(horizon, 200000)
+    pat = {'mode': mode, 'delay_ms': rng.choice([0, 0, 1, period // 2, max(0, life - 1), life + 1, 2 * life + 1]) if mode != 'never' else 0,
+           'stop_ms': rng.randrange(1, max(2, horizon)), 'start_ms': rng.randrange(1, max(2, horizon))}
+    if pat['delay_ms'] > 100000:
+        pat['delay_ms'] = 0
+    opts = {'mode': k.get('mode') or rng.choice(['tcp', 'msg']), 'peer': 'server', 'keepalive_ms': period, 'lifetime_ms': life, 'ka': pat}
+    prog = [['start'], ['settle']]
+    t = 0
+    while t < horizon:
+        step = rng.choice([period // 3 + 1, period, period + 1, life // 2 + 1, life, 2 * life + 3])
+        step = max(1, min(step, horizon - t, 50000))
+        prog.append(['advance', step])
+        t += step
+        if rng.random() < 0.25:
+            prog.append(['peer_keepalive', rng.choice([0, 1, 8, 64]), rng.random() < 0.8])
+        if rng.random() < 0.1:
+            prog.append(['snapshot', 'mid'])
+    prog.append(['settle'])
+    prog.append(['snapshot', 'final'])
+    return opts, prog
+
+
+def gen_keepalive2(rng, knobs=None):
+    """both endpoints real: the real server must echo the real client's keep-alives (exactly once, same data, flag cleared)"""
+    period = rng.choice([50, 100, 300])
+    opts = {'mode': rng.choice(['tcp', 'msg']), 'keepalive_ms': period, 'lifetime_ms': rng.choice([period, 4 * period, 600000])}
+    prog = [['start'], ['pump']]
+    for _ in range(rng.randint(3, 12)):
+        prog.append(['advance', rng.choice([period // 2, period, period * 2 + 1])])
+        prog.append(['pump'] if rng.random() < 0.8 else ['settle'])
+        if rng.random() < 0.2:
+            prog.append(['rr', 'c', spec(rng, big=False), {'mode': 'immediate', 'resp': spec(rng, big=False)}])
+    prog.append(['pump'])
+    prog.append(['snapshot', 'final'])
+    return opts, prog
+
+
+def gen_setup_client(rng, knobs=None):
+    """client configurations (periods incl. sub-second parts, MIME types, lease flag, setup payload) x transports/providers
+    whose connect() does or does not suspend x requests issued while connecting"""
+    ms = [1, 50, 250, 500, 999, 1000, 1500, 2500, 60000, 90500, 600000, 3600000]
+    opts = {'mode': rng.choice(['tcp', 'msg']), 'keepalive_ms': rng.choice(ms), 'lifetime_ms': rng.choice(ms),
+            'connect_suspends': rng.choice([0, 0, 1, 2, 3]), 'provider_suspends': rng.choice([0, 0, 1, 2]),
+            'frag': rng.choice([None, 64])}
+    if rng.random() < 0.5:
+        opts['setup_payload'] = spec(rng)
+    if rng.random() < 0.4:
+        opts['data_mime'] = rng.choice(['text/plain', 'application/octet-stream', 'x/' + 'y' * rng.randint(1, 100)])
+    if rng.random() < 0.4:
+        opts['md_mime'] = rng.choice(['message/x.rsocket.composite-metadata.v0', 'application/cbor', 'a/b'])
+    if rng.random() < 0.3:
+        opts['honor_lease_c'] = True
+    prog = [['start_noconnect']]
+    # requests issued concurrently with connect(): before it, and after 0..3 loop iterations of it
+    steps = []
+    for _ in range(rng.randint(0, 3)):
+        kind = rng.choice(['rr', 'fnf', 'push', 'stream'])
+        sp = spec(rng, big=rng.random() < 0.3)
+        if kind == 'rr':
+            steps.append(['rr', 'c', sp, {'mode': 'immediate', 'resp': spec(rng, big=False)}])
+        elif kind == 'fnf':
+            steps.append(['fnf', 'c', sp])
+        elif kind == 'push':
+            steps.append(['push', 'c', 7])
+        else:
+            steps.append(['stream', 'c', sp, 2, {'src': 'generator', 'items': items(rng, 2, big=False)}, True])
+    cut = rng.randint(0, len(steps))
+    prog += steps[:cut]
+    prog.append(['connect'])
+    for st in steps[cut:]:
+        prog.append(['step', rng.choice([0, 1, 1, 2])])
+        prog.append(st)
+    prog.append(['pump'])
+    if opts.get('honor_lease_c'):
+        prog.append(['lease', 5, 10000])
+        prog.append(['pump'])
+    prog.append(['finish'])
+    return opts, prog
+
+
+def gen_setup_server(rng, knobs=None):
+    """a scripted client sends SETUP variants / RESUME to a real server"""
+    variant = rng.choice(['plain', 'plain', 'resume_flag', 'lease_no_publisher', 'lease_with_publisher', 'on_setup_raises', 'resume_frame',
+                          'payload', 'mimes'])
+    opts = {'mode': rng.choice(['tcp', 'msg']), 'peer': 'client'}
+    if variant == 'lease_with_publisher':
+        opts['server_lease_publisher'] = True
+    if variant == 'on_setup_raises':
+        opts['on_setup_raises'] = True
+    prog = [['start'], ['peer_setup', variant, rng.randrange(10 ** 6)], ['settle']]
+    if rng.random() < 0.5:
+        prog.append(['peer_request', 1, rng.randrange(10 ** 6)])
+        prog.append(['settle'])
+    prog.append(['snapshot', 'final'])
+    return opts, prog
+
+
+def gen_reconnect(rng, knobs=None):
+    """whatever ended the previous connection (server EOF, transport error, keep-alive timeout, explicit reconnect while healthy),
+    with 0..3 interactions pending, 1..3 consecutive reconnects; afterwards a probe request must be served"""
+    k = dict(knobs or {})
+    period = rng.choice([100, 200])
+    life = rng.choice([300, 1000, 100000])
+    opts = {'mode': 'tcp', 'keepalive_ms': period, 'lifetime_ms': life, 'read_buffer': rng.choice([7, 1024]), 'frag': rng.choice([None, 64])}
+    prog = [['start'], ['pump']]
+    for rnd_i in range(rng.randint(1, 3)):
+        for _ in range(rng.randint(0, 3)):
+            kind = rng.choice(['rr', 'stream', 'channel', 'fnf'])
+            ep = rng.choice(['c', 'c', 's'])
+            sp = spec(rng, big=rng.random() < 0.3)
+            if kind == 'rr':
+                prog.append(['rr', ep, sp, {'mode': 'later'}])
+            elif kind == 'fnf':
+                prog.append(['fnf', ep, sp])
+            elif kind == 'stream':
+                prog.append(['stream', ep, sp, 2, {'src': 'scripted'}, rng.random() < 0.9])
+            else:
+                prog.append(['channel', ep, sp, 2, {'src': 'scripted', 'pub': True, 'sub': True}, True, {'src': 'scripted'}, True])
+            if rng.random() < 0.6:
+                prog.append(['pump'])
+        cause = rng.choice(k.get('causes', ['server_eof', 'error', 'ka_timeout', 'healthy', 'healthy', 'server_close']))
+        if cause == 'server_eof':
+            prog.append(['cut', 's', 'eof'])
+            prog.append(['settle'])
+        elif cause == 'error':
+            prog.append(['cut', rng.choice(['c', 's']), 'error'])
+            prog.append(['settle'])
+        elif cause == 'server_close':
+            prog.append(['close', 's'])
+            prog.append(['settle'])
+        elif cause == 'ka_timeout':
+            # the link goes silent: nothing is delivered any more until the client notices
+            prog.append(['silence'])
+            prog.append(['advance', 2 * life + period + 5 if life < 5000 else 50])
+            prog.append(['settle'])
+        prog.append(['reconnect'])
+        if rng.random() < 0.3:
+            prog.append(['reconnect'])
+        prog.append(['pump'])
+        prog.append(['advance', period + 10])
+        prog.append(['pump'])
+    prog.append(['probe', 'c', spec(rng, big=False), spec(rng, big=False)])
+    prog.append(['pump'])
+    prog.append(['advance', period + 1])
+    prog.append(['finish'])
+    return opts, prog
